@@ -57,6 +57,9 @@ type raceInfo struct {
 	kindB string
 }
 
+// killThread unwinds a parked thread when the parallel section is torn down.
+type killThread struct{}
+
 type scheduler struct {
 	i           *interpreter
 	threads     []*thread
@@ -119,7 +122,9 @@ func (s *scheduler) transfer(from *thread, next *thread, park bool) {
 	next.resume <- true
 	if park {
 		if ok := <-from.resume; !ok {
-			panic(stopSpawn{})
+			// teardown of a parked thread: a type of its own, so that the
+			// recover of vRunSpawned (which stops on stopSpawn) lets it through
+			panic(killThread{})
 		}
 		s.cur = from.id
 		s.i.env.curThread = from.id
@@ -357,7 +362,7 @@ func (i *interpreter) runPar(fr *frame, fns []value, maxPreempt int) {
 	if i.env.sched != nil {
 		unsupportedf("nested vPar")
 	}
-	s := &scheduler{i: i, mainCh: make(chan struct{}), maxPreempt: maxPreempt,
+	s := &scheduler{i: i, mainCh: make(chan struct{}, len(fns)+1), maxPreempt: maxPreempt,
 		cells: map[interface{}]*cellState{}, raceKeys: map[string]bool{},
 		wvc: map[*lockState]vclock{}, rvc: map[*lockState]vclock{}}
 	n := len(fns)
@@ -380,6 +385,9 @@ func (i *interpreter) runPar(fr *frame, fns []value, maxPreempt int) {
 			}
 			defer func() {
 				if r := recover(); r != nil {
+					if _, ok := r.(killThread); ok {
+						return
+					}
 					if _, ok := r.(stopSpawn); ok {
 						return
 					}
